@@ -387,6 +387,11 @@ where
     let mut c = left;
     let mut f_c = f_left;
     let mut s = right - f_right * (right - left) / (f_right - f_left);
+    // With function values near the largest finite number the product above overflows:
+    // the secant point is then not a point of the bracket, use the midpoint instead
+    if !((s >= left && s <= right) || (s >= right && s <= left)) {
+        s = (left + right) / two;
+    }
     let mut f_s = f(s);
     let mut mflag = true;
     let mut d = c;
